@@ -319,7 +319,7 @@ def stage_hsm_import(ctx):
     from alpenhorn.daemon import auto_import
     from alpenhorn.scheduler import FairMultiFIFOQueue
     with envmod.Env() as e:
-        for during, via_req, unlock_later in itertools.product(["nothing", "lock", "lock+rewrite", "remove", "symlink"], [False, True], [False, True]):
+        for during, via_req, unlock_later in itertools.product(["nothing", "lock", "lock+rewrite", "remove", "symlink", "lfs-fault"], [False, True], [False, True]):
             w = worldmod.World(e)
             db = w.db
             for m in (db.StorageTransferAction, db.ArchiveFileCopyRequest, db.ArchiveFileImportRequest, db.ArchiveFileCopy,
@@ -337,7 +337,7 @@ def stage_hsm_import(ctx):
                 fh.write(good)
             st_file = os.path.join(e.tmp, "lfs_state.json")
             with open(st_file, "w") as fh:
-                json.dump({"paths": {p: "released"}}, fh)
+                json.dump({"paths": {p: "released"}, "fail": {"hsm_state": 1} if during == "lfs-fault" else {}}, fh)
             undo = fakelfs.install(st_file)
             verif_idext.MODE[:] = ["first", 1]
             e.set_host("h1")
@@ -356,6 +356,14 @@ def stage_hsm_import(ctx):
                 auto_import.import_file(un, q, pathlib.PurePath("acq/data.dat"), True, req)
                 run_queued()                                     # first segment: not resident -> restore requested, task parks itself
                 log.append(f"after first segment: deferred={q.deferred_size}")
+                if during == "lfs-fault":
+                    # the only answer so far was an lfs failure and the file is released on tape: nothing may have been read
+                    early = [(f.name, f.size_b) for f in db.ArchiveFile.select()]
+                    if early:
+                        ctx.violation("hsm-import:lfs-fault", f"import on an HSM node registered {early} although lfs hsm_state had failed and the "
+                                      f"file is released (not resident)", {"kind": "hsm-import", "during": during, "via_request": via_req})
+                    ctx.count("hsm-import:lfs-fault")
+                    continue
                 lock = os.path.join(node.root, "acq", ".data.dat.lock")
                 if during.startswith("lock"):
                     open(lock, "wb").close()
